@@ -449,6 +449,81 @@ func (g *guardEngine) factsFromCond(cond ssa.Value, pol bool) []lenFact {
 					return []lenFact{{x: c.Call.Args[0], min: int64(len(s))}}
 				}
 			}
+			// a boolean module helper that answers false whenever a slice argument is shorter
+			// than k: its true outcome establishes len >= k
+			if fnInModule(sc) && len(sc.Blocks) > 0 && len(sc.Params) == len(c.Call.Args) && sc.Signature.Results().Len() == 1 {
+				var out []lenFact
+				for i, par := range sc.Params {
+					if _, isSlice := par.Type().Underlying().(*types.Slice); !isSlice {
+						continue
+					}
+					best := int64(0)
+					for _, hb := range sc.Blocks {
+						for _, hi := range hb.Instrs {
+							cmp, ok := hi.(*ssa.BinOp)
+							if !ok {
+								continue
+							}
+							var k int64
+							var isK bool
+							lenLeft := false
+							if lenArg(cmp.X) == ssa.Value(par) {
+								k, isK = constInt(cmp.Y)
+								lenLeft = true
+							} else if lenArg(cmp.Y) == ssa.Value(par) {
+								k, isK = constInt(cmp.X)
+							}
+							if !isK {
+								continue
+							}
+							op := cmp.Op
+							if !lenLeft {
+								switch op {
+								case token.LSS:
+									op = token.GTR
+								case token.LEQ:
+									op = token.GEQ
+								case token.GTR:
+									op = token.LSS
+								case token.GEQ:
+									op = token.LEQ
+								}
+							}
+							// the bound m such that this comparison separates len < m from len >= m,
+							// and the comparison's value when len < m
+							var m int64
+							short := 0
+							switch op {
+							case token.LSS: // len < k
+								m, short = k, 1
+							case token.LEQ: // len <= k
+								m, short = k+1, 1
+							case token.GTR: // len > k
+								m, short = k+1, -1
+							case token.GEQ: // len >= k
+								m, short = k, -1
+							default:
+								continue
+							}
+							the := cmp
+							if boolResultUnder(sc, func(cond ssa.Value) int {
+								if cond == ssa.Value(the) {
+									return short
+								}
+								return 0
+							}) == -1 && m > best {
+								best = m
+							}
+						}
+					}
+					if best > 0 {
+						out = append(out, lenFact{x: c.Call.Args[i], min: best})
+					}
+				}
+				if len(out) > 0 {
+					return out
+				}
+			}
 		}
 	case *ssa.BinOp:
 		op := c.Op
@@ -744,6 +819,33 @@ func (g *guardEngine) discharge(s guardSite) string {
 	}
 	// the index was returned by a search helper (an index of its slice argument, or a negative
 	// constant for "not found") and is tested to be non-negative
+	// x[:k+copy(x[k:], …)]: copy returns at most len(x[k:]) = len(x)-k
+	if s.idxIsBound {
+		if add, ok := s.idx.(*ssa.BinOp); ok && add.Op == token.ADD {
+			for _, pair := range [][2]ssa.Value{{add.X, add.Y}, {add.Y, add.X}} {
+				k, isK := constInt(pair[0])
+				cp, isCall := pair[1].(*ssa.Call)
+				if !isK || !isCall || k < 0 {
+					continue
+				}
+				if bi, ok := cp.Call.Value.(*ssa.Builtin); !ok || bi.Name() != "copy" {
+					continue
+				}
+				if dst, ok := cp.Call.Args[0].(*ssa.Slice); ok && dst.High == nil && (dst.X == x || g.same(dst.X, x)) {
+					if lo, ok := constInt(dst.Low); ok && lo == k {
+						return "bound k + copy(x[k:], …): the count copied is at most len(x)-k"
+					}
+				}
+			}
+		}
+	}
+	// the index was returned by slices.Index / IndexFunc over the same slice and is used only
+	// where it is known to be >= 0 (it is then smaller than the length)
+	if call, ok := s.idx.(*ssa.Call); ok {
+		if sc := call.Call.StaticCallee(); sc != nil && fnPkgPath(sc) == "slices" && strings.HasPrefix(sc.Name(), "Index") && len(call.Call.Args) == 2 && (call.Call.Args[0] == x || g.same(call.Call.Args[0], x)) && g.intMinFrom(call, s.ins.Block(), -1) >= 0 {
+			return "position returned by slices." + sc.Name() + " over the same slice, used only where it is >= 0"
+		}
+	}
 	// the index was returned by strings.Index & co. over the same string and is used only
 	// where it is known to be >= 0: 0 <= r <= len(s) for a bound, r < len(s) for an element
 	// when the needle cannot be empty
